@@ -4,6 +4,8 @@ import (
 	"bytes"
 	"fmt"
 	"github.com/dave/dst/decorator"
+	"github.com/dave/dst/decorator/resolver/goast"
+	"github.com/dave/dst/decorator/resolver/guess"
 	"go/format"
 	"go/token"
 	"regexp"
@@ -270,6 +272,25 @@ func min(a, b int) int {
 }
 
 func c03Check(c *fw.Ctx, id, tr string, in []byte, reduceFrom []byte) {
+	c03CheckVia(c, id, tr, in, rtParsePrint)
+}
+
+// rtImportsManaged: decorate with import management (syntax-only resolver), restore with import
+// management (guessing resolver).
+func rtImportsManaged(src []byte) ([]byte, error) {
+	d := decorator.NewDecoratorWithImports(token.NewFileSet(), "example.com/self", goast.New())
+	f, err := d.Parse(src)
+	if err != nil {
+		return nil, err
+	}
+	var buf bytes.Buffer
+	if err := decorator.NewRestorerWithImports("example.com/self", guess.New()).Fprint(&buf, f); err != nil {
+		return nil, err
+	}
+	return buf.Bytes(), nil
+}
+
+func c03CheckVia(c *fw.Ctx, id, tr string, in []byte, rtParsePrint func([]byte) ([]byte, error)) {
 	c.Case(id, func() {
 		c.Observe("transforms", tr)
 		c.Count("inputs:"+tr, 1)
@@ -406,6 +427,47 @@ func runC03(c *fw.Ctx) {
 					continue
 				}
 				c03Check(c, fmt.Sprintf("tokgap:%s/%d/%d", k, ti, vi), "token-gap-comment", in, src)
+			}
+		}
+	}
+	// the same insertions with import management on both sides, over files that use package-qualified
+	// identifiers in many syntactic positions (the identifier-to-selector collapse has decoration
+	// handling of its own); only files that import management leaves alone are used
+	ctx := c08ContextFiles()
+	var ckeys []string
+	for k := range ctx {
+		ckeys = append(ckeys, k)
+	}
+	sortStrings(ckeys)
+	for _, k := range ckeys {
+		src := []byte(ctx[k])
+		if base, err := rtImportsManaged(src); err != nil || !bytes.Equal(base, src) {
+			c.Count("inconclusive:import-management-rewrites-base", 1)
+			continue
+		}
+		toks, _ := obs.Scan(src)
+		inImports := false
+		for ti, t := range toks {
+			if t.Tok == token.IMPORT {
+				inImports = true
+			} else if t.Tok == token.FUNC || t.Tok == token.TYPE || t.Tok == token.VAR || t.Tok == token.CONST {
+				inImports = false
+			}
+			if inImports || (t.Tok == token.SEMICOLON && t.Lit == "\n") {
+				continue
+			}
+			for vi, ins := range []string{"\n// own-line\n", "/*blk*/ ", "// eol\n"} {
+				i := gi
+				gi++
+				if !c.Mine(i) || (c.Quick() && (ti+vi+len(k))%2 != 0) {
+					continue
+				}
+				in := append(append(append([]byte{}, src[:t.Off]...), ins...), src[t.Off:]...)
+				if !corpus.Parses(in) {
+					c.Count("inconclusive:mutation-breaks-parse", 1)
+					continue
+				}
+				c03CheckVia(c, fmt.Sprintf("tokgap-imports:%s/%d/%d", k, ti, vi), "token-gap-comment+import-management", in, rtImportsManaged)
 			}
 		}
 	}
